@@ -93,6 +93,11 @@ pub open spec fn wf_seq(s: Seq<BlockRange>) -> bool {
     &&& forall|i: int| 0 <= i < s.len() ==> r_valid(#[trigger] s[i])
     &&& forall|i: int, j: int| 0 <= i < j < s.len() ==> (#[trigger] s[i])@.end + 1 < (#[trigger] s[j])@.start
 }
+// what `from_vec` checks: valid, sorted, disjoint - but adjacent ranges are let through
+pub open spec fn wf_weak_seq(s: Seq<BlockRange>) -> bool {
+    &&& forall|i: int| 0 <= i < s.len() ==> r_valid(#[trigger] s[i])
+    &&& forall|i: int, j: int| 0 <= i < j < s.len() ==> (#[trigger] s[i])@.end < (#[trigger] s[j])@.start
+}
 pub open spec fn seq_has(s: Seq<BlockRange>, h: int) -> bool {
     exists|i: int| 0 <= i < s.len() && r_has(#[trigger] s[i], h)
 }
@@ -322,6 +327,112 @@ pub proof fn lemma_remove(s: Seq<BlockRange>, a: int, b: int, r: BlockRange, t1:
         if has_l && r_has(t2[a], h) { assert(r_has(s[a], h)); }
     }
 }
+
+pub proof fn lemma_head_max(s: Seq<BlockRange>)
+    requires wf_seq(s)
+    ensures
+        s.len() > 0 ==> seq_has(s, s.last()@.end as int),
+        s.len() > 0 ==> forall|x: int| seq_has(s, x) ==> x <= s.last()@.end,
+        s.len() == 0 ==> forall|x: int| !seq_has(s, x),
+{
+    if s.len() > 0 {
+        let n = s.len() - 1;
+        assert(r_has(s[n], s[n]@.end as int));
+        assert forall|x: int| seq_has(s, x) implies x <= s[n]@.end by {
+            let k = choose|k: int| 0 <= k < s.len() && r_has(#[trigger] s[k], x);
+            if k < n { assert(s[k]@.end + 1 < s[n]@.start); }
+        }
+    }
+}
+pub proof fn lemma_tail_min(s: Seq<BlockRange>)
+    requires wf_seq(s)
+    ensures
+        s.len() > 0 ==> seq_has(s, s[0]@.start as int),
+        s.len() > 0 ==> forall|x: int| seq_has(s, x) ==> x >= s[0]@.start,
+        s.len() == 0 ==> forall|x: int| !seq_has(s, x),
+{
+    if s.len() > 0 {
+        assert(r_has(s[0], s[0]@.start as int));
+        assert forall|x: int| seq_has(s, x) implies x >= s[0]@.start by {
+            let k = choose|k: int| 0 <= k < s.len() && r_has(#[trigger] s[k], x);
+            if k > 0 { assert(s[0]@.end + 1 < s[k]@.start); }
+        }
+    }
+}
+
+
+pub proof fn lemma_pop_head(s: Seq<BlockRange>, t: Seq<BlockRange>)
+    requires
+        wf_seq(s), s.len() > 0,
+        s.last()@.start == s.last()@.end ==> t =~= s.drop_last(),
+        s.last()@.start < s.last()@.end ==> t.len() == s.len() && t.drop_last() =~= s.drop_last()
+            && t.last()@.start == s.last()@.start && t.last()@.end == s.last()@.end - 1 && !t.last()@.exhausted,
+    ensures
+        wf_seq(t),
+        forall|h: int| #![trigger seq_has(t, h)] seq_has(t, h) == (seq_has(s, h) && h != s.last()@.end),
+{
+    let n = s.len() - 1;
+    lemma_head_max(s);
+    assert forall|i: int| 0 <= i < t.len() implies r_valid(#[trigger] t[i]) by {
+        if i < n { assert(t[i] == s.drop_last()[i]); assert(r_valid(s[i])); }
+    }
+    assert forall|i: int, j: int| 0 <= i < j < t.len() implies (#[trigger] t[i])@.end + 1 < (#[trigger] t[j])@.start by {
+        assert(t[i] == s.drop_last()[i]);
+        if j < n { assert(t[j] == s.drop_last()[j]); }
+        assert(s[i]@.end + 1 < s[j]@.start);
+    }
+    assert forall|h: int| #![trigger seq_has(t, h)] seq_has(t, h) == (seq_has(s, h) && h != s[n]@.end) by {
+        if seq_has(t, h) {
+            let k = choose|k: int| 0 <= k < t.len() && r_has(#[trigger] t[k], h);
+            if k < n { assert(t[k] == s.drop_last()[k]); assert(r_has(s[k], h)); assert(s[k]@.end + 1 < s[n]@.start); }
+            else { assert(r_has(s[n], h)); }
+        }
+        if seq_has(s, h) && h != s[n]@.end {
+            let k = choose|k: int| 0 <= k < s.len() && r_has(#[trigger] s[k], h);
+            if k < n { assert(t[k] == s.drop_last()[k]); assert(r_has(t[k], h)); }
+            else { assert(r_has(t[n], h)); }
+        }
+    }
+}
+pub proof fn lemma_pop_tail(s: Seq<BlockRange>, t: Seq<BlockRange>)
+    requires
+        wf_seq(s), s.len() > 0,
+        s[0]@.start == s[0]@.end ==> t =~= s.subrange(1, s.len() as int),
+        s[0]@.start < s[0]@.end ==> t.len() == s.len() && t.subrange(1, t.len() as int) =~= s.subrange(1, s.len() as int)
+            && t[0]@.start == s[0]@.start + 1 && t[0]@.end == s[0]@.end && !t[0]@.exhausted,
+    ensures
+        wf_seq(t),
+        forall|h: int| #![trigger seq_has(t, h)] seq_has(t, h) == (seq_has(s, h) && h != s[0]@.start),
+{
+    lemma_tail_min(s);
+    let single = s[0]@.start == s[0]@.end;
+    let off: int = if single { 1 } else { 0 };
+    assert forall|i: int| 0 <= i < t.len() implies (i + off > 0 ==> #[trigger] t[i] == s[i + off]) by {
+        if i + off > 0 {
+            if single { assert(t[i] == s.subrange(1, s.len() as int)[i]); }
+            else { assert(t[i] == t.subrange(1, t.len() as int)[i - 1]); assert(s[i] == s.subrange(1, s.len() as int)[i - 1]); }
+        }
+    }
+    assert forall|i: int| 0 <= i < t.len() implies r_valid(#[trigger] t[i]) by {
+        if i + off > 0 { assert(r_valid(s[i + off])); }
+    }
+    assert forall|i: int, j: int| 0 <= i < j < t.len() implies (#[trigger] t[i])@.end + 1 < (#[trigger] t[j])@.start by {
+        assert(s[i + off]@.end + 1 < s[j + off]@.start);
+    }
+    assert forall|h: int| #![trigger seq_has(t, h)] seq_has(t, h) == (seq_has(s, h) && h != s[0]@.start) by {
+        if seq_has(t, h) {
+            let k = choose|k: int| 0 <= k < t.len() && r_has(#[trigger] t[k], h);
+            if k + off > 0 { assert(r_has(s[k + off], h)); assert(s[0]@.end + 1 < s[k + off]@.start); }
+            else { assert(r_has(s[0], h)); }
+        }
+        if seq_has(s, h) && h != s[0]@.start {
+            let k = choose|k: int| 0 <= k < s.len() && r_has(#[trigger] s[k], h);
+            if k > 0 { assert(t[k - off] == s[k]); assert(r_has(t[k - off], h)); }
+            else { assert(r_has(t[0], h)); }
+        }
+    }
+}
+
 // facts connecting the set view with per-range predicates
 pub proof fn lemma_disjoint_iff(s: Seq<BlockRange>, r: BlockRange)
     requires r_valid(r), wf_seq(s)
@@ -556,6 +667,7 @@ fn calc_overlap(
 impl BlockRanges {
     pub open spec fn wf(&self) -> bool { wf_seq(self.0@) }
     pub open spec fn has(&self, h: int) -> bool { seq_has(self.0@, h) }
+    pub open spec fn wf_weak(&self) -> bool { wf_weak_seq(self.0@) }
     pub open spec fn view(&self) -> ISet<int> { ISet::new(|h: int| seq_has(self.0@, h)) }
 
 //@fn impl BlockRanges :: new
@@ -733,6 +845,343 @@ impl BlockRanges {
         }
         proof { assert(self.0@.subrange(0, self.0@.len() as int) =~= self.0@); }
         __acc
+//@end
+
+
+//@fn impl BlockRanges :: from_vec
+//@props C17
+    pub fn from_vec(ranges: Vec<BlockRange>) -> (res: Result<Self>)
+        requires forall|i: int| 0 <= i < ranges@.len() ==> !(#[trigger] ranges@[i])@.exhausted
+        ensures
+            res.is_ok() ==> res.unwrap().0@ == ranges@ && res.unwrap().wf_weak(),
+            res.is_ok() <==> wf_weak_seq(ranges@),
+//@for 1
+//@loop 1
+            invariant
+                __i1 <= ranges.len(),
+                forall|i: int| 0 <= i < ranges@.len() ==> !(#[trigger] ranges@[i])@.exhausted,
+                wf_weak_seq(ranges@.subrange(0, __i1 as int)),
+                match prev { Some(p) => __i1 > 0 && *p == ranges@[__i1 - 1], None => __i1 == 0 },
+            decreases ranges.len() - __i1
+//@sub E8 "prev.is_some_and(|prev| range.start() <= prev.end())" => "(match prev { Some(prev) => range.start() <= prev.end(), None => false })"
+//@hint before "return Err(BlockRangesError::UnsortedBlockRanges);"
+                proof {
+                    assert(!wf_weak_seq(ranges@)) by {
+                        if wf_weak_seq(ranges@) { assert(ranges@[__i1 - 2]@.end < ranges@[__i1 - 1]@.start); }
+                    }
+                }
+//@hint after "prev = Some(range);"
+            proof {
+                let a = ranges@.subrange(0, __i1 as int);
+                let b = ranges@.subrange(0, __i1 as int - 1);
+                assert forall|i: int| 0 <= i < a.len() implies r_valid(#[trigger] a[i]) by {
+                    if i < b.len() { assert(a[i] == b[i]); }
+                }
+                assert forall|i: int, j: int| 0 <= i < j < a.len() implies (#[trigger] a[i])@.end < (#[trigger] a[j])@.start by {
+                    if j < b.len() { assert(a[i] == b[i]); assert(a[j] == b[j]); }
+                    else if i == j - 1 { }
+                    else { assert(a[i] == b[i]); assert(a[j - 1] == b[j - 1]); assert(b[i]@.end < b[j - 1]@.start); }
+                }
+            }
+//@hint before "Ok(BlockRanges(ranges))"
+        proof { assert(ranges@.subrange(0, ranges@.len() as int) =~= ranges@); }
+//@end
+
+//@fn impl BlockRanges :: contains
+//@props C17
+    pub fn contains(&self, height: u64) -> (b: bool)
+        requires self.wf()
+        ensures b == self@.contains(height as int)
+//@sub E8 "self.0.iter().any(|r| r.contains(&height))"
+        {
+            let mut __i: usize = 0;
+            let mut __found = false;
+            while __i < self.0.len()
+                invariant __i <= self.0.len(), !__found, self.wf(),
+                    forall|k: int| 0 <= k < __i ==> !r_has(#[trigger] self.0@[k], height as int),
+                decreases self.0.len() - __i
+            {
+                let r = &self.0[__i];
+                __i += 1;
+                if r.contains(&height) { proof { assert(r_has(self.0@[__i - 1], height as int)); } return true; }
+            }
+            false
+        }
+//@end
+
+
+//@fn impl BlockRanges :: is_empty
+//@props C17
+    pub fn is_empty(&self) -> (b: bool)
+        requires self.wf()
+        ensures b == (self@ =~= ISet::<int>::empty()), b == (self.0@.len() == 0)
+//@sub E8 "self.0.iter().all(|r| r.is_empty())"
+        {
+            let mut __i: usize = 0;
+            while __i < self.0.len()
+                invariant __i <= self.0.len(), self.wf(), __i == 0,
+                decreases self.0.len() - __i
+            {
+                let r = &self.0[__i];
+                __i += 1;
+                if !(r.is_empty()) {
+                    proof { assert(r_has(self.0@[0], self.0@[0]@.start as int)); assert(self@.contains(self.0@[0]@.start as int)); }
+                    return false;
+                }
+                proof { assert(r_valid(self.0@[0])); }
+            }
+            true
+        }
+//@end
+
+//@fn impl BlockRanges :: head
+//@props C17
+    pub fn head(&self) -> (res: Option<u64>)
+        requires self.wf()
+        ensures match res {
+            Some(h) => self@.contains(h as int) && (forall|x: int| self@.contains(x) ==> x <= h) && self.0@.len() > 0 && h == self.0@.last()@.end,
+            None => self.0@.len() == 0 && self@ =~= ISet::<int>::empty(),
+        }
+//@hint entry
+        proof { lemma_head_max(self.0@); }
+//@sub E15 "|r| *r.end()" => "|r: &BlockRange| -> (o: u64) ensures o == r@.end { *r.end() }"
+//@end
+
+//@fn impl BlockRanges :: tail
+//@props C17
+    pub fn tail(&self) -> (res: Option<u64>)
+        requires self.wf()
+        ensures match res {
+            Some(h) => self@.contains(h as int) && (forall|x: int| self@.contains(x) ==> x >= h) && self.0@.len() > 0 && h == self.0@[0]@.start,
+            None => self.0@.len() == 0 && self@ =~= ISet::<int>::empty(),
+        }
+//@hint entry
+        proof { lemma_tail_min(self.0@); }
+//@sub E15 "|r| *r.start()" => "|r: &BlockRange| -> (o: u64) ensures o == r@.start { *r.start() }"
+//@end
+
+
+//@fn impl BlockRanges :: pop_head
+//@props C17
+    pub fn pop_head(&mut self) -> (res: Option<u64>)
+        requires old(self).wf()
+        ensures
+            final(self).wf(),
+            match res {
+                Some(h) => old(self)@.contains(h as int) && (forall|x: int| old(self)@.contains(x) ==> x <= h)
+                    && final(self)@ == old(self)@.remove(h as int),
+                None => old(self).0@.len() == 0 && final(self).0@ == old(self).0@,
+            }
+//@hint entry
+        proof { lemma_head_max(self.0@); }
+//@hint before "Some(head)"
+        proof { lemma_pop_head(old(self).0@, self.0@); assert(self@ =~= old(self)@.remove(head as int)); }
+//@end
+
+//@fn impl BlockRanges :: pop_tail
+//@props C17
+    pub fn pop_tail(&mut self) -> (res: Option<u64>)
+        requires old(self).wf()
+        ensures
+            final(self).wf(),
+            match res {
+                Some(h) => old(self)@.contains(h as int) && (forall|x: int| old(self)@.contains(x) ==> x >= h)
+                    && final(self)@ == old(self)@.remove(h as int),
+                None => old(self).0@.len() == 0 && final(self).0@ == old(self).0@,
+            }
+//@hint entry
+        proof { lemma_tail_min(self.0@); }
+//@hint before "Some(tail)"
+        proof { lemma_pop_tail(old(self).0@, self.0@); assert(self@ =~= old(self)@.remove(tail as int)); }
+//@end
+
+
+//@fn impl BlockRanges :: left_of
+//@props C17
+    pub fn left_of(&self, height: u64) -> (res: Option<u64>)
+        requires self.wf(), height > 0
+        ensures match res {
+            Some(p) => self@.contains(p as int) && p < height && (forall|x: int| self@.contains(x) && x < height ==> x <= p),
+            None => forall|x: int| self@.contains(x) ==> x >= height,
+        }
+//@for 1
+//@loop 1
+            invariant
+                __i1 <= self.0.len(), self.wf(), height > 0,
+                forall|k: int| __i1 <= k < self.0.len() ==> (#[trigger] self.0@[k])@.start >= height,
+            decreases __i1
+//@hint before "return Some(*r.end());"
+                proof {
+                    assert(r_has(self.0@[__i1 as int], r@.end as int));
+                    assert forall|x: int| self@.contains(x) && x < height implies x <= r@.end by {
+                        let k = choose|k: int| 0 <= k < self.0@.len() && r_has(#[trigger] self.0@[k], x);
+                        if k < __i1 { assert(self.0@[k]@.end + 1 < self.0@[__i1 as int]@.start); }
+                    }
+                }
+//@hint before "return Some(height - 1);"
+                proof {
+                    assert(r_has(self.0@[__i1 as int], height - 1));
+                }
+//@hint before "None"
+        proof {
+            assert forall|x: int| self@.contains(x) implies x >= height by {
+                let k = choose|k: int| 0 <= k < self.0@.len() && r_has(#[trigger] self.0@[k], x);
+            }
+        }
+//@end
+
+//@fn impl BlockRanges :: right_of
+//@props C17
+    pub fn right_of(&self, height: u64) -> (res: Option<u64>)
+        requires self.wf(), height > 0
+        ensures match res {
+            Some(p) => self@.contains(p as int) && p > height && (forall|x: int| self@.contains(x) && x > height ==> x >= p),
+            None => forall|x: int| self@.contains(x) ==> x <= height,
+        }
+//@for 1
+//@loop 1
+            invariant
+                __i1 <= self.0.len(), self.wf(), height > 0,
+                forall|k: int| 0 <= k < __i1 ==> (#[trigger] self.0@[k])@.end <= height,
+            decreases self.0.len() - __i1
+//@hint before "return Some(*r.start());"
+                proof {
+                    let i = __i1 - 1;
+                    assert(r_has(self.0@[i], r@.start as int));
+                    assert forall|x: int| self@.contains(x) && x > height implies x >= r@.start by {
+                        let k = choose|k: int| 0 <= k < self.0@.len() && r_has(#[trigger] self.0@[k], x);
+                        if k > i { assert(self.0@[i]@.end + 1 < self.0@[k]@.start); }
+                    }
+                }
+//@hint before "return Some(height + 1);"
+                proof {
+                    assert(r_has(self.0@[__i1 - 1], height + 1));
+                }
+//@hint before "None"
+        proof {
+            assert forall|x: int| self@.contains(x) implies x <= height by {
+                let k = choose|k: int| 0 <= k < self.0@.len() && r_has(#[trigger] self.0@[k], x);
+            }
+        }
+//@end
+
+
+    // derive(Clone)
+    #[verifier::external_body]
+    pub fn clone(&self) -> (r: BlockRanges)
+        ensures r.0@ == self.0@
+    { BlockRanges(self.0.clone()) }
+
+    // ---- operator impls: emitted as inherent methods (same bodies); `a + &b` at call sites is desugared to `a.add(&b)` (rule E9-op) ----
+//@fn impl AddAssign<&BlockRanges> for BlockRanges :: add_assign
+//@props C17
+    pub fn add_assign(&mut self, rhs: &BlockRanges)
+        requires old(self).wf(), rhs.wf()
+        ensures final(self).wf(), final(self)@ == old(self)@.union(rhs@)
+//@for 1
+//@loop 1
+            invariant
+                __i1 <= rhs.0.len(), self.wf(), rhs.wf(),
+                self@ == old(self)@.union(ISet::new(|h: int| seq_has(rhs.0@.subrange(0, __i1 as int), h))),
+            decreases rhs.0.len() - __i1
+//@hint after ".expect(\"BlockRanges always holds valid ranges\");"
+            proof {
+                let pre = rhs.0@.subrange(0, __i1 as int - 1);
+                let cur = rhs.0@.subrange(0, __i1 as int);
+                assert(cur =~= pre.push(rhs.0@[__i1 - 1]));
+                assert forall|h: int| seq_has(cur, h) == (seq_has(pre, h) || r_has(rhs.0@[__i1 - 1], h)) by { lemma_has_push(pre, rhs.0@[__i1 - 1], h); }
+                assert(self@ =~= old(self)@.union(ISet::new(|h: int| seq_has(cur, h))));
+            }
+//@hint exit
+        proof {
+            assert(rhs.0@.subrange(0, rhs.0@.len() as int) =~= rhs.0@);
+            assert(self@ =~= old(self)@.union(rhs@));
+        }
+//@hint entry
+        proof { assert(self@ =~= old(self)@.union(ISet::new(|h: int| seq_has(rhs.0@.subrange(0, 0), h)))); }
+//@end
+
+//@fn impl Add<&BlockRanges> for BlockRanges :: add
+//@props C17
+//@mutself
+    pub fn add(self, rhs: &BlockRanges) -> (r: BlockRanges)
+        requires self.wf(), rhs.wf()
+        ensures r.wf(), r@ == self@.union(rhs@)
+//@end
+
+//@fn impl SubAssign<&BlockRanges> for BlockRanges :: sub_assign
+//@props C17
+    pub fn sub_assign(&mut self, rhs: &BlockRanges)
+        requires old(self).wf(), rhs.wf()
+        ensures final(self).wf(), final(self)@ == old(self)@.difference(rhs@)
+//@for 1
+//@loop 1
+            invariant
+                __i1 <= rhs.0.len(), self.wf(), rhs.wf(),
+                self@ == old(self)@.difference(ISet::new(|h: int| seq_has(rhs.0@.subrange(0, __i1 as int), h))),
+            decreases rhs.0.len() - __i1
+//@hint after ".expect(\"BlockRanges always holds valid ranges\");"
+            proof {
+                let pre = rhs.0@.subrange(0, __i1 as int - 1);
+                let cur = rhs.0@.subrange(0, __i1 as int);
+                assert(cur =~= pre.push(rhs.0@[__i1 - 1]));
+                assert forall|h: int| seq_has(cur, h) == (seq_has(pre, h) || r_has(rhs.0@[__i1 - 1], h)) by { lemma_has_push(pre, rhs.0@[__i1 - 1], h); }
+                assert(self@ =~= old(self)@.difference(ISet::new(|h: int| seq_has(cur, h))));
+            }
+//@hint exit
+        proof {
+            assert(rhs.0@.subrange(0, rhs.0@.len() as int) =~= rhs.0@);
+            assert(self@ =~= old(self)@.difference(rhs@));
+        }
+//@hint entry
+        proof { assert(self@ =~= old(self)@.difference(ISet::new(|h: int| seq_has(rhs.0@.subrange(0, 0), h)))); }
+//@end
+
+//@fn impl Sub<&BlockRanges> for BlockRanges :: sub
+//@props C17
+//@mutself
+    pub fn sub(self, rhs: &BlockRanges) -> (r: BlockRanges)
+        requires self.wf(), rhs.wf()
+        ensures r.wf(), r@ == self@.difference(rhs@)
+//@end
+
+//@fn impl Sub for BlockRanges :: sub
+//@props C17
+//@mutself
+    pub fn sub__val(self, rhs: BlockRanges) -> (r: BlockRanges)
+        requires self.wf(), rhs.wf()
+        ensures r.wf(), r@ == self@.difference(rhs@)
+//@end
+
+//@fn impl Not for BlockRanges :: not
+//@props C17
+    pub fn not(self) -> (r: BlockRanges)
+        requires self.wf()
+        ensures r.wf(), r@ == ISet::new(|h: int| 1 <= h <= u64::MAX).difference(self@)
+//@ascribe "let mut inverse = BlockRanges::new();" => "let mut inverse = BlockRanges::new(); let ghost full = ISet::new(|h: int| 1 <= h <= u64::MAX);"
+//@sub E1 "inverse.insert_relaxed(1..=u64::MAX)" => "inverse.insert_relaxed(&(1..=u64::MAX))"
+//@hint before "// And remove whatever we have"
+        proof { assert(inverse@ =~= full); assert(inverse@ =~= full.difference(ISet::new(|h: int| seq_has(self.0@.subrange(0, 0), h)))); }
+//@for 1
+//@loop 1
+            invariant
+                __i1 <= self.0.len(), self.wf(), inverse.wf(),
+                full == ISet::new(|h: int| 1 <= h <= u64::MAX),
+                inverse@ == full.difference(ISet::new(|h: int| seq_has(self.0@.subrange(0, __i1 as int), h))),
+            decreases self.0.len() - __i1
+//@hint after ".expect(\"BlockRanges always holds valid ranges\");"
+            proof {
+                let pre = self.0@.subrange(0, __i1 as int - 1);
+                let cur = self.0@.subrange(0, __i1 as int);
+                assert(cur =~= pre.push(self.0@[__i1 - 1]));
+                assert forall|h: int| seq_has(cur, h) == (seq_has(pre, h) || r_has(self.0@[__i1 - 1], h)) by { lemma_has_push(pre, self.0@[__i1 - 1], h); }
+                assert(inverse@ =~= full.difference(ISet::new(|h: int| seq_has(cur, h))));
+            }
+//@hint before "inverse" last
+        proof {
+            assert(self.0@.subrange(0, self.0@.len() as int) =~= self.0@);
+            assert(inverse@ =~= full.difference(self@));
+        }
 //@end
 
 } // impl BlockRanges
